@@ -15,7 +15,7 @@
    assume only that every such text is one numeric token ([color_text_ok]). *)
 From Coq Require Import String Ascii.
 From Coq Require Import ZArith List Bool Lia ZifyBool QArith Qround Qreduction Qcanon.
-From Segno Require Import Base.PyLite Model.Iter Model.Color Model.Vector Ref.Pixel Ref.VectorReader.
+From Segno Require Import Base.PyLite Base.PyCase Model.Iter Model.Color Model.Vector Ref.Pixel Ref.VectorReader.
 From Segno Require Import Lemmas.IterLemmas.
 Import ListNotations.
 Open Scope Z_scope.
@@ -804,7 +804,7 @@ Qed.
 Lemma color_to_rgba_err' c af e : color_to_rgba c af = Err e -> e = ValueError.
 Proof.
   unfold color_to_rgba. intros H. destruct c as [s|parts].
-  - destruct (assoc_str (lower s) _) as [[[r g] b]|]; [discriminate|].
+  - destruct (assoc_str (py_lower s) _) as [[[r g] b]|]; [discriminate|].
     destruct (hex_to_rgb_or_rgba s af) as [l|e'] eqn:Eh.
     + destruct l as [|r [|g [|b [|a l]]]]; discriminate.
     + apply hex_err' in Eh. subst e'. inversion H; reflexivity.
